@@ -365,6 +365,13 @@ PROPS["C12"]["units"] = PROPS["C12"]["units"] + [{"kind": "enum", "group": "mess
 PROPS["C10"]["text"] += " Variants carrying BOTH rename and rename_all, written in either order or as two attributes (TagBoth), are in both catalogues."
 PROPS["C11"]["text"] += " `validate` on enums (an internally tagged enum with unit variants, a unit-only enum read from a string): bounded harnesses derive_tagval_2 / derive_unitsv."
 
+# after the seventh batch of seeded changes
+_more("C19", "enum", "value-paths", "harnesses", ["value_long_paths"])
+for _p, _g in (("C02", "derive-core-enum"), ("C04", "derive-core-enum"), ("C08", "derive-missing-enum"), ("C09", "derive-unknown-enum"), ("C12", "derive-total-enum")):
+    _more(_p, "enum", _g, "harnesses", ["derive_nested_in_containers"])
+PROPS["C08"]["text"] += " Derived structs nested in a Vec, a BTreeMap and an Option (1-3 elements, each fine / lacking a field / lacking both / with an invalid value / with an unknown key), keep-going error type: every missing / unknown / invalid report is made at the element it belongs to (native execution, bounded)."
+PROPS["C19"]["text"] = PROPS["C19"].get("text", "") + " Long paths (up to 40 steps, four phases of a repeating key / index pattern) are executed natively as a bounded companion (an implementation that treats short paths specially cannot hide behind the 6-step enumeration)."
+
 # C13: container part, bounded
 PROPS["C13"]["units"] = PROPS["C13"]["units"] + [{"kind": "enum", "group": "json-documents", "harnesses": ["json_documents"],
     "bounds": "797 603 documents: nesting depth <= 2, arrays / objects of width <= 2 (keys `k`, `l l`), scalars from the statement's boundary set (0, 7, 2^53+1, u64::MAX, -1, -2^53-1, i64::MIN, 1.5, -0.0, a subnormal, 1e300, 2^64 as float, two strings with escapes / non-ASCII, null, booleans)"}]
